@@ -98,9 +98,16 @@ def translate(repo):
     src, tree = parse_file(repo, SRC)
     cls = find_class(tree, 'BoboRun')
     hashes = {}
-    fns = {n: find_func(cls, n) for n in ('process', '_process_loop', '_process_not_loop', '_move_forward')}
+    fns = {n: find_func(cls, n) for n in ('process', '_process_loop', '_process_not_loop', '_move_forward', '_is_match')}
     for n, f in fns.items():
         hashes[f"{SRC}::BoboRun.{n}"] = sha(ast.get_source_segment(src, f))
+    # `_is_match`: the predicates of the block, in order, through a generator expression inside `any` (first True ends
+    # the evaluation; whatever a predicate raises leaves the method as an exception — a generator expression turns even
+    # StopIteration into one).  The model's `isMatch` is this reading; any other form is refused.
+    im = [ast.unparse(x) for x in strip_doc(fns.pop('_is_match').body)]
+    if im != ['return any((predicate.evaluate(event, self._history) for predicate in predicates))']:
+        raise TieBroken('_is_match: body is not `return any(predicate.evaluate(event, self._history) for predicate in predicates)`: '
+                        + ' ; '.join(im)[:160])
     loop = _walk_fn(fns['_process_loop'], {'match', 'block.strict'})
     notloop = _walk_fn(fns['_process_not_loop'], {'match', 'block.negated', 'block.optional', 'block.strict'})
     steps = _process_shape(fns['process'])
